@@ -913,7 +913,14 @@ def plan(prop, tier, seed, known):
         jobs += design_jobs("DirSlots", ["DirSlots"], ["DirSlots_big"], [("DirSlots_compact", "Complete"), ("DirSlots_cookie", "NoDup")], q)
         for i in range(1 if q else 8):
             jobs.append(seq_job("dirslots%d" % i, seed * 100 + 50 + i, "dirs,names", 3 if q else 6, 150 if q else 300, av, disk=8000, extra=["-snapeach", "1"]))
+        # entries added concurrently: the retry loop of CREATE/MKDIR/SYMLINK (the directory lock is given up while a half-freed
+        # inode is completed) with the same name created meanwhile - a name listed twice is a duplicate slot
+        jobs.append({"name": "wingetalloc", "kind": "lin", "also": ["C13"], "driver": ["windows", "-part", "-1", "-parts", "1"]})
+        for i in range(1 if q else 6):   # listings while other clients add, remove and rename entries
+            jobs.append({"name": "lin%d" % i, "kind": "lin", "also": ["C13"],
+                         "driver": ["conc", "-seed", str(seed * 100 + 60 + i), "-segs", "4" if q else "12", "-steps", "10", "-clients", str(2 + i % 3), "-avoid", av]})
     elif prop == "C04":
+        jobs.append({"name": "wingetalloc", "kind": "lin", "also": ["C04"], "driver": ["windows", "-part", "-1", "-parts", "1"]})
         n = 5 if q else 40
         for i in range(n):
             jobs.append(seq_job("struct%d" % i, seed * 100 + i, "dirs,names,mix,many,data", 5 if q else 10, 200 if q else 400, av,
@@ -988,6 +995,8 @@ def plan(prop, tier, seed, known):
         for i in range(2 if q else 12):
             jobs.append(crash_job("crashbig%d" % i, seed * 100 + 50 + i, "crashbig", 1, 12 if q else 20, av, disk=3400,
                                   extra=["-loss", "1", "-cont", "2", "-nested", "1", "-stride", "3" if q else "1"]))
+        for jb in jobs:   # a recovered image whose structure is rejected cannot "keep serving further operations correctly"
+            jb["also"] = ["C01"]
         jobs.append(probe_job(prop, av))
         jobs += commitwin_jobs(q, ["C01"])
         # the first start on an empty disk with crashes inside the format (the crash engine enumerates those points on the real code)
